@@ -132,7 +132,14 @@ StepTags(pre, post, ev, a, ok, o) ==
          liquid == NAdd(pre.stk[<<a.s, a.a>>].wd,
                         SumF({k \in DOMAIN pre.recs : pre.recs[k].s = a.s /\ pre.recs[k].a = a.a}, LAMBDA k : pre.recs[k].actual))
          dec == NSub(HeldBy(pre, a.a), HeldBy(post, a.a))
-     IN T(NLe(dec, want) /\ NGe(dec, NMin(want, liquid)), "C01_NstAdjustmentNotApplied")
+         recsOf == {k \in DOMAIN pre.recs : pre.recs[k].s = a.s /\ pre.recs[k].a = a.a}
+         owedBefore == SumF(recsOf, LAMBDA k : pre.recs[k].actual)
+         owedAfter  == SumF({k \in recsOf : k \in DOMAIN post.recs}, LAMBDA k : post.recs[k].actual)
+         fromPending == NMin(NMax(0, NSub(want, pre.stk[<<a.s, a.a>>].wd)), owedBefore)
+     IN T(NLe(dec, want) /\ NGe(dec, NMin(want, liquid)), "C01_NstAdjustmentNotApplied") \cup
+        \* C03: the part of the decrease that falls on pending undelegations is recorded in them
+        \* ("recorded amount less any slashing applied while it was pending")
+        T(NEq(NSub(owedBefore, owedAfter), fromPending), "C03_PendingSlashNotRecorded")
    ELSE {}) \cup
   \* --- C09: a reported failure leaves no trace ---
   T(ok \/ ev = "EndBlock" \/ post = pre, "C09_FailedButChanged") \cup
